@@ -232,6 +232,8 @@ pub enum Oracle {
     C12,
     /// position monitor only
     C04,
+    /// directory listing after recovery vs. file attribution of the retained records
+    C06,
 }
 
 #[derive(Clone, Debug)]
@@ -373,6 +375,9 @@ struct Hist {
     batches: Vec<(String, Vec<(u64, Vec<u8>)>)>,
     /// truncate positions issued per queue (completed or in flight)
     truncs: Vec<(String, u64)>,
+    /// (queue, position, payload) -> (file that received the first byte the append wrote,
+    /// whether that byte was at offset 0 of the file with no padding before)
+    attr: Vec<((String, u64, Vec<u8>), (u64, bool))>,
 }
 
 struct Ctx<'a> {
@@ -434,6 +439,7 @@ fn crash_leaf_inner(stats: &mut Stats, dir: &Path, dir2: &Path, leaf: &Leaf, cfg
         states: vec![Model::default()],
         batches: vec![],
         truncs: vec![],
+        attr: vec![],
     };
     let seed_len = leaf.seed.ops.len();
     let all_ops: Vec<&Op> = leaf.seed.ops.iter().chain(leaf.ops.iter().copied()).collect();
@@ -472,6 +478,18 @@ fn crash_leaf_inner(stats: &mut Stats, dir: &Path, dir2: &Path, leaf: &Leaf, cfg
         }
         if let COp::Trunc { q, pos } = &rec.cop {
             hist.truncs.push((q.clone(), *pos));
+        }
+        if let (COp::Append { q, payloads, .. }, Outcome::Appended(Some(last))) = (&rec.cop, &rec.got) {
+            let first_bw = rec.events.iter().find_map(|e| match e {
+                Event::BlockWrite { file_number, offset, len, .. } => Some((*file_number, *offset == 0 && *len >= 7)),
+                _ => None,
+            });
+            if let Some(fb) = first_bw {
+                let first = last + 1 - payloads.len() as u64;
+                for (i, p) in payloads.iter().enumerate() {
+                    hist.attr.push(((q.clone(), first + i as u64, p.to_vec()), fb));
+                }
+            }
         }
         hist.cops.push(rec.cop);
         hist.outcomes.push(rec.got);
@@ -613,7 +631,7 @@ fn eval_image(stats: &mut Stats, ctx: &Ctx, image: &Image, point: &serde_json::V
     stats.evaluations += 1;
     stats.transitions += 1;
     let hist = ctx.hist;
-    let (log, rec_events) = match recover(ctx.dir2, image, cfg, cfg.second_crash && level == 0) {
+    let (log, rec_events) = match recover(ctx.dir2, image, cfg, (cfg.second_crash && level == 0) || cfg.oracle == Oracle::C06) {
         Ok(x) => x,
         Err(e) => {
             stats.violation(Violation {
@@ -694,6 +712,61 @@ fn eval_image(stats: &mut Stats, ctx: &Ctx, image: &Image, point: &serde_json::V
                 }
             }
             stats.nontrivial(&(hist.batches.len(), r.len(), point.to_string()));
+        }
+        Oracle::C06 => {
+            let mut files: Vec<u64> = list_dir(ctx.dir2).iter().filter_map(|f| wal_number(&f.0)).collect();
+            files.sort();
+            stats.count("c06_checks_after_crash_recovery", 1);
+            if files.is_empty() || files.windows(2).any(|w| w[1] != w[0] + 1) {
+                stats.violation(Violation { property: cfg.property.into(), signature: "not-contiguous-after-recovery".into(), what: format!("after crash recovery the WAL files are {:?}", files), case: case_json(ctx, point, image) });
+                return;
+            }
+            // retained records (as recovered) and the files they were written into
+            let mut oldest: Option<(u64, bool)> = None;
+            let mut all_attr: Vec<(u64, bool)> = vec![];
+            for (q, qo) in &r {
+                for (p, b) in &qo.recs {
+                    // the latest append of that (queue, position, payload)
+                    if let Some((_, fb)) = hist.attr.iter().rev().find(|(k, _)| k.0 == *q && k.1 == *p && k.2 == *b) {
+                        all_attr.push(*fb);
+                        if oldest.map(|o| fb.0 < o.0).unwrap_or(true) {
+                            oldest = Some(*fb);
+                        }
+                    }
+                }
+            }
+            let last = *files.last().unwrap();
+            // "the file that was being written when the call began": where the replay ended (the
+            // writer resumes there) - the file of the last full block the recovery read before it
+            // wrote anything. (Recovery's own GC entries may then roll over into the next file.)
+            let mut begin_file = last;
+            for e in &rec_events {
+                match e {
+                    Event::Read { name, len, .. } if *len == BLOCK => {
+                        if let Some(n) = wal_number(name) {
+                            begin_file = n;
+                        }
+                    }
+                    Event::Write { .. } | Event::BlockWrite { .. } => break,
+                    _ => {}
+                }
+            }
+            let bound = oldest.map(|o| o.0).unwrap_or(u64::MAX).min(begin_file);
+            let excess: Vec<u64> = files.iter().copied().filter(|f| *f < bound).collect();
+            stats.nontrivial(&(files.clone(), oldest, ctx.op_index));
+            if !excess.is_empty() {
+                let d4 = excess.len() == 1 && all_attr.iter().any(|a| a.0 == excess[0] + 1 && a.1) && all_attr.iter().all(|a| a.0 > excess[0]);
+                stats.violation(Violation {
+                    property: cfg.property.into(),
+                    signature: if d4 { "D4-cursor-at-file-end".into() } else { "excess-file-after-recovery".into() },
+                    what: format!("after crash recovery the WAL files are {:?}, but the oldest retained record was written into file {:?} and the replay ended in file {} (the file being written when open began): file(s) {:?} should have been reclaimed by open", files, oldest.map(|o| o.0), begin_file, excess),
+                    case: case_json(ctx, point, image),
+                });
+                if !d4 {
+                    return;
+                }
+            }
+            matched = Some("files ok".into());
         }
         Oracle::C04 => {
             // highest position appended or truncated-to by completed ops, per live incarnation
